@@ -113,10 +113,13 @@ def _run_smat(case):
     resid["offdiag"] = fnum(float(max(np.abs(S[:, 0, 1]).max(), np.abs(S[:, 1, 0]).max())) / sc)
     # by-label view agrees with positional
     flags = {}
-    if np.isreal(me) and xe <= 300:
+    if xe <= 300:
         try:
-            sp = MieScatteringMatrix("perpendicular", float(np.real(me)), xe)(theta)
-            pl = MieScatteringMatrix("parallel", float(np.real(me)), xe)(theta)
+            # the class follows van de Hulst (time factor exp(+iwt), absorbing index n - ik): its result for the conjugate
+            # index is the conjugate of the Bohren-Huffman amplitude; MieLens hands it the conjugate of HoloPy's index
+            mv = float(np.real(me)) if np.isreal(me) else complex(np.conj(me))
+            sp = MieScatteringMatrix("perpendicular", mv, xe)(theta)
+            pl = MieScatteringMatrix("parallel", mv, xe)(theta)
             resid["pymie"] = fnum(max(float(np.abs(np.conj(sp) - S1r).max()), float(np.abs(np.conj(pl) - S2r).max())) / sc)
             resid["pymie_vs_fortran"] = fnum(max(float(np.abs(np.conj(sp) - S[:, 1, 1]).max()), float(np.abs(np.conj(pl) - S[:, 0, 0]).max())) / sc)
         except RuntimeError as e:
